@@ -5,6 +5,48 @@ sys.path.insert(0, "/verif")
 os.environ.setdefault("FVMON_REPO", "/repo")
 from fvmon import env
 env.setup_import_path()
+TECH = {
+ "C01": ("runtime monitoring: structural invariant (WF) hooked at every quiescent point of random operation histories + raw-snapshot atomicity of rejected operations",
+         "Held on every history executed: each step of each generated history of public mutators was followed by a well-formedness walk of the raw lists; rejected operations were compared bit-for-bit (values and box identities) with the pre-state. Exploration is the right level: the quantifier is over unbounded histories, no finite run closes it."),
+ "C02": ("runtime monitoring: rank-bookkeeping invariant (RC) at every quiescent point of operation histories on tensors from every constructor; derived per-rank quantities recomputed from a raw walk",
+         "Held on every history executed, for the mutated tensor and the tensors it was derived from; two mechanisms that violate it on the unchanged tree are recorded as known findings and keep being reported as such."),
+ "C03": ("runtime monitoring: history + executable reference model (point->value dict) compared after every access; aliasing/freshness probes; checking wrapper on Fiber._coord2pos",
+         "Held on every access history executed; the model comparison after each step is what shows that a write disturbs no other point."),
+ "C04": ("runtime monitoring: definitional set-operation oracle over raw lists on the yielded sequences, identity/freshness/mask checks, operand snapshots; exhaustive small-scope pair sweep as workload",
+         "Held on the complete 3-state pair sweep (exhaustive for that scope) and on the random operand classes listed in the evidence rule."),
+ "C05": ("runtime monitoring: lock-step executable model of populate with observation at every yield and after the loop",
+         "Held on every generated destination x source x action table; the systematic part enumerates all action tables over three coordinates."),
+ "C06": ("runtime monitoring: differential execution of generated kernels (all loop orders, tilings, styles) against a dense reference evaluation",
+         "Held on every dataflow executed for every generated expression; metamorphic equality across dataflows plus the dense oracle."),
+ "C07": ("runtime monitoring: definitional traversal oracles from raw lists vs yielded sequences, snapshots before/after",
+         "Held on the complete 3-state fiber x range sweep and the random classes listed."),
+ "C08": ("runtime monitoring: independent partition model recomputed per split target + model-free invariants (tiling, losslessness, halo membership)",
+         "Held on every split executed, including nested re-splits."),
+ "C09": ("runtime monitoring: content-map image oracle under the stated coordinate map, round trips, WF/RC/containment of every result",
+         "Held on every transform executed over the systematic (transform, depth, levels, style, permutation) sweep and random trees."),
+ "C10": ("runtime monitoring: deep structural snapshots + object-identity sets before/after every operation of the two families, follow-up mutations, byte-wise image comparison",
+         "Held on every operation executed from the statement's two families."),
+ "C11": ("runtime monitoring: icontract postconditions on every Payload/CoordPayload operator (evaluated on every call the workload causes) + dense-view oracle for fiber arithmetic; exhaustive operator table as workload",
+         "Held on the complete operator x operand-kind x value-grid table and on the fiber workloads."),
+ "C12": ("runtime monitoring: content oracle over families of representations of the same content; all ordered pairs and triples",
+         "Held on the complete 2x2 grid sweep (all ordered pairs) and on the random families."),
+ "C13": ("runtime monitoring: round-trip oracles (nest <-> tree, YAML/dict through real files, seeded random construction) with raw-walk checks",
+         "Held on every small nest (exhaustive for the stated bound) and the random conversions executed."),
+ "C14": ("runtime monitoring: attribute-algebra oracle (expected ids/shape/default/formats/ranges computed from the operand's constructor arguments) vs the getters of every result; containment walk",
+         "Held on every transform chain / lazy result / join executed."),
+ "C15": ("runtime monitoring: off/on differential runs, sys.monitoring taps counting operator executions independently of Metrics, session-position equality of dumps and traces",
+         "Held on every kernel x registration x session sequence executed."),
+ "C16": ("runtime monitoring: offline checker matching the library's trace files / consumed traces against a ground-truth event log recorded by the harness from raw lists; flush-threshold and consumable invariance",
+         "Held on every traced kernel executed (each under five buffering configurations)."),
+ "C17": ("runtime monitoring: independent policy models (window counter, furthest-next-use simulator, exhaustive optimum search) and metamorphic sweeps over generated and real traces",
+         "Held on the complete short-sequence sweeps and the random / real traces executed."),
+ "C18": ("runtime monitoring: recursive raw-walk footprint oracle + postcondition on Format._getFiberFootprint evaluated on every internal call",
+         "Held on every tensor x specification executed."),
+ "C19": ("runtime monitoring: closed-form merge-count oracles over raw coordinate lists vs the models fed with real traces in several batchings; round-by-round swap simulation",
+         "Held on the complete subset-pair sweeps and random fiber sequences executed."),
+ "C20": ("runtime monitoring: independent decoder written from the documented layouts, handle-API scans, bisect lookups, word-count formula on every encoding",
+         "Held on every tensor x descriptor x imposed shape executed (all 3^depth descriptors for the systematic trees)."),
+}
 props = [json.loads(l) for l in open("/verif/properties.jsonl")]
 checks, na = [], []
 PENDING = {}
@@ -25,10 +67,10 @@ for p in props:
         "replay_cmd_template": f"./check {pid} --replay {{path}}",
         "engine": "fvmon",
         "level_claimed": {"category": "exploration",
-                          "text": S.get("level_text", "Held on the executions observed: an oracle (reference model / invariant / offline log checker) watched every generated execution of the real code; no claim beyond the explored inputs."),
+                          "text": TECH[pid][1] + " No claim beyond the explored inputs (evidence gives the measured counts, distinct cases, states, anchor reach).",
                           "design_ref": f"DESIGN.md section 5 ({pid})"},
         "level_note": S.get("level_note", "Trusted base: CPython 3.12, the monitors and reference models in /verif/fvmon and /verif/checks, the stated input-domain guards (evidence.assumptions)."),
-        "technique": S.get("technique", "runtime monitoring: oracle over observed executions"),
+        "technique": TECH[pid][0],
     })
 man = {
     "version": 1,
